@@ -232,7 +232,10 @@ class Cmp {
   function <C: Ordered<C>> maxOf(a: C, b: C): C = if a.compare(b) < 0 { b } else { a }
   function <C: Ordered<C>> key(a: C): int = a.compare(a)
 }
-class Cell<T>(val content: T) { function <T> of(content: T): Cell<T> = Cell.init(content) }
+class Cell<T>(val content: T) {
+  function <T> of(content: T): Cell<T> = Cell.init(content)
+  method <R> fold(start: R, f: (R, T) -> R): R = f(start, this.content)
+}
 class Secret { private function hidden(): int = 1 }
 class Helper {
   function one(a: int): int = a
@@ -240,6 +243,8 @@ class Helper {
   function two(a: int, b: int): int = a + b
   function <T> id(t: T): T = t
   function apply(f: (int) -> int): int = f(1)
+  function <T> applyTwice(x: T, f: (T) -> T): T = f(f(x))
+  function <A, B> mapWith(a: A, b: B, f: (A) -> B): B = f(a)
   function cellInt(c: Cell<int>): int = c.content
   function twoIntStr(t: Two<int, Str>): int = t.a
   function cellFn(c: Cell<(int) -> int>): int = 1
@@ -283,6 +288,11 @@ GEN_FAULTS = {
     "second_type_argument_mismatch": "Helper.twoIntStr(Two.init(1, 2))",
     "lambda_parameter_count": "Helper.apply((x, y) -> x)",
     "lambda_return_type": "Helper.apply((x) -> true)",
+    # a contextually typed lambda handed to a GENERIC callee whose type parameters the other arguments already fix
+    "generic_lambda_return_type_fixed_by_argument": 'Helper.applyTwice(20, (x) -> "oops")',
+    "generic_lambda_return_type_fixed_by_two_arguments": "Helper.mapWith(true, 3, (x) -> x)",
+    "generic_method_lambda_return_type": 'Cell.init("s").fold(1, (acc, s) -> acc == 41)',
+    "generic_lambda_parameter_misused": "Helper.applyTwice(20, (x) -> if x { 1 } else { 2 })",
     "function_type_inside_type_argument": "Helper.cellFn(Cell.init((x: int) -> true))",
     "tuple_arity": "Helper.pairFirst((1, 2, 3))",
     "tuple_third_component": 'Helper.tripleSum((1, 2, "x"))',
